@@ -1780,7 +1780,8 @@ def _apply_cumulative(
             na_rep = _null_value_for_numpy_type(result.dtype)
         result[np.asarray(group_key) < 0] = na_rep
 
-    elif orig_dtype.kind in "mM":
+    if orig_dtype.kind in "mM" and not counting:
+        # also when some keys are null (the int64 null marker is NaT)
         result = result.astype(orig_dtype)
 
     return result
